@@ -10,6 +10,7 @@ typedef struct {
     SuperLUStat_t stat;
     int_t info;
     int have_A, have_AC, have_LU, user_work, stat_on;
+    long growths;        /* growths in flight the monitor observed during the last ?gstrf/?gsitrf call (-1: not countable, e.g. injected failures) */
     int fp_inexact;      /* FE_INEXACT was raised between entry to and return from ?gstrf/?gsitrf */
     superlu_options_t opt;
 } fact_run;
